@@ -23,7 +23,7 @@ Inductive bevent :=
 | ECreator (var : string) (created : list string) (has_body : bool) (whole_created : string) (p : pos4)
 | EMref (text0 ident : string) (has_expr : bool) (p : pos4)
 | EAnnot (name : string)
-| EReturn (text : string).
+| EReturn (text : string) (nulltok : bool).    (* nulltok: the null literal is among the tokens of the returned expression *)
 
 Record jmember := mkMember {
   m_kind : string;                 (* field | method | ctor | imethod *)
@@ -245,7 +245,7 @@ Definition body_event (st : fstate) (e : bevent) : fstate :=
   | ECreator var created has_body _ p => enter_creator st var created p
   | EMref text0 ident has_expr p => if has_expr then enter_mref st text0 ident p else st
   | EAnnot name => set_override st (String.eqb name "Override")
-  | EReturn _ => st
+  | EReturn _ _ => st
   end.
 
 (* BuildMethodParameters also records the parameters in localVars *)
